@@ -11,7 +11,7 @@ CONSTANTS MaxLen, NameClasses
 
 Names == UNION {[1..m -> NameClasses] : m \in 1..MaxLen}
 DirsU == {"", "sub", "sub dir", "süb/deep", "v1.2"}
-Bases == {"plain", "with space", "trailing-slash", "ünï", "symlink"}
+Bases == {"plain", "with space", "trailing-slash", "ünï", "symlink", "dotdot"}
 
 VARIABLES name, dir, base, done
 vars == <<name, dir, base, done>>
